@@ -44,14 +44,14 @@ def plan(tier, seed):
         for p in range(4):
             shards.append({"name": "graphs-sample-%d" % p, "kind": "graphs45sample",
                            "n": 15000, "part": p})
-        for p in range(4):
-            shards.append({"name": "random-%d" % p, "kind": "random", "n": 400,
+        for p in range(6):
+            shards.append({"name": "random-%d" % p, "kind": "random", "n": 2500,
                            "part": p})
         for p in range(4):
-            shards.append({"name": "events-%d" % p, "kind": "events", "n": 900,
+            shards.append({"name": "events-%d" % p, "kind": "events", "n": 2500,
                            "part": p})
-        for p in range(3):
-            shards.append({"name": "notes-%d" % p, "kind": "notes", "n": 500,
+        for p in range(4):
+            shards.append({"name": "notes-%d" % p, "kind": "notes", "n": 1200,
                            "part": p})
     else:
         shards.append({"name": "graphs-small", "kind": "graphs", "a_max": 3,
@@ -61,7 +61,7 @@ def plan(tier, seed):
                            "a_min": 4, "a_max": 4, "b_min": 1, "b_max": 5,
                            "part": p, "parts": 16})
         for p in range(8):
-            shards.append({"name": "random-%d" % p, "kind": "random", "n": 4000,
+            shards.append({"name": "random-%d" % p, "kind": "random", "n": 20000,
                            "part": p, "scipy": True})
         for p in range(8):
             shards.append({"name": "events-%d" % p, "kind": "events", "n": 12000,
